@@ -276,9 +276,10 @@ pub trait AggValidBasic<T: IsNone>: IntoIterator<Item = T> + Sized {
     where
         T::Inner: Number,
     {
-        let (n, sum) = self.vfold_n(T::Inner::zero(), |acc, x| acc + x);
+        // accumulate in f64: the sum of an integer series may leave the element type although its mean does not
+        let (n, sum) = self.vfold_n(0f64, |acc, x| acc + x.f64());
         if n >= 1 {
-            sum.f64() / n as f64
+            sum / n as f64
         } else {
             f64::NAN
         }
@@ -920,8 +921,13 @@ pub trait AggBasic: IntoIterator + Sized {
     where
         Self::Item: Zero + Cast<f64>,
     {
-        let (len, sum) = self.n_sum();
-        sum.map(|v| v.cast() / len as f64)
+        // accumulate in f64: the sum of an integer series may leave the element type although its mean does not
+        let mut len = 0usize;
+        let sum = self.into_iter().fold(0f64, |acc, x| {
+            len += 1;
+            acc + x.cast()
+        });
+        if len >= 1 { Some(sum / len as f64) } else { None }
     }
 
     /// Returns the maximum element in the iterator.
